@@ -1092,15 +1092,30 @@ impl Writer {
         // NackFrag is negative acknowledgement only, i.e. requesting missing fragments.
 
         let reader_guid = GUID::new(reader_guid_prefix, nackfrag.reader_id);
-        if let Some(reader_proxy) = self.lookup_reader_proxy_mut(reader_guid) {
-          reader_proxy.mark_frags_requested(nackfrag.writer_sn, &nackfrag.fragment_number_state);
+        // Fragments can be requested only from a sample we still have.
+        let frag_count = self
+          .history_buffer
+          .get_by_sn(nackfrag.writer_sn)
+          .map(|cc| self.num_frags_and_frag_size(cc.data_value.payload_size()).0);
+        let mut marked = false;
+        if let Some(frag_count) = frag_count {
+          if let Some(reader_proxy) = self.lookup_reader_proxy_mut(reader_guid) {
+            reader_proxy.mark_frags_requested(
+              nackfrag.writer_sn,
+              &nackfrag.fragment_number_state,
+              frag_count,
+            );
+            marked = true;
+          }
         }
-        self.timed_event_timer.set_timeout(
-          self.nackfrag_response_delay,
-          TimedEvent::SendRepairFrags {
-            to_reader: reader_guid,
-          },
-        );
+        if marked {
+          self.timed_event_timer.set_timeout(
+            self.nackfrag_response_delay,
+            TimedEvent::SendRepairFrags {
+              to_reader: reader_guid,
+            },
+          );
+        }
       }
     }
   }
